@@ -10,10 +10,10 @@ N = 99
 CARDS = {"none": None, "1to1": (1, 1), "max1": (None, 1), "min1": (1, None), "min3": (3, None), "1to2": (1, 2), "2to2": (2, 2)}
 T12 = "(" + ";".join(str(i) for i in range(12)) + ")"
 VALS = {"text": ["alpha", "beta"], "ints": [1, 2], "empty": [], "one": ["alpha"], "tup2": ["(1;2)", "(3;4)"], "tup12": [T12, T12],
-        "tup2bad": ["(1;2)", "(3;4)"], "tup12bad": [T12]}
-VDTYPE = {"tup2": "2-tuple", "tup12": "12-tuple", "tup2bad": "2-tuple", "tup12bad": "12-tuple"}
-TREE = {"s1": "d1", "s2": "d1", "s3": "s1", "p1": "s1", "p2": "s1", "p3": "s2", "p4": "s3"}
-ORDER = ["s1", "s2", "s3", "p1", "p2", "p3", "p4"]
+        "tup2bad": ["(1;2)", "(3;4)"], "tup12bad": [T12], "bools": [True, False], "dates": ["2020-01-02", "2021-03-04"]}
+VDTYPE = {"bools": "boolean", "dates": "date", "tup2": "2-tuple", "tup12": "12-tuple", "tup2bad": "2-tuple", "tup12bad": "12-tuple"}
+TREE = {"s1": "d1", "s2": "d1", "s3": "s1", "s4": "d1", "p1": "s1", "p2": "s1", "p3": "s2", "p4": "s3"}
+ORDER = ["s1", "s2", "s3", "s4", "p1", "p2", "p3", "p4"]
 
 
 def build(g):
@@ -22,7 +22,7 @@ def build(g):
         spec = g[h]
         tmp = "tmp-" + h                       # unique while attaching; the real name is set afterwards
         if h.startswith("s"):
-            o = odml.Section(name=tmp, type="t")
+            o = odml.Section(name=tmp, type="t")       # the type of the model is set below
         else:
             o = odml.Property(name=tmp, values=list(VALS[spec["vals"]]), dtype=VDTYPE.get(spec["vals"]))
             if spec["vals"] == "tup2bad":
